@@ -83,7 +83,8 @@ class Record:
                  invariant: Optional[str] = None, file: Optional[str] = None,
                  enum: Optional[List[Dict[str, Any]]] = None, value_eq: bool = True,
                  mutable: Optional[List[str]] = None, subclasses: Optional[Dict[str, Dict[str, Any]]] = None,
-                 tag_field: str = "kind"):
+                 tag_field: str = "kind", defaults: Optional[Dict[str, str]] = None):
+        self.defaults = defaults or {}   # constructor defaults of trailing fields (clause text)
         # class hierarchy folded into one record sort: subclasses[name] = dict(tags=[ints], ctor=[field names,
         # a trailing "*" gathers the remaining positional arguments into a tuple], min_args=n)
         self.subclasses = subclasses or {}
